@@ -2,6 +2,7 @@ import RimuProofs.Lemmas.Hoare
 import RimuProofs.Lemmas.Groups
 import RimuProofs.Regex.GroupProp
 import RimuProofs.Regex.Literal
+import RimuProofs.Regex.Digits
 import RimuProofs.Facts
 import RimuModel.Block
 
@@ -31,7 +32,6 @@ def modelOnly : PyErr → Bool
 def residual : PyErr → Bool
   | .indexError site => site == "savedReplacements.pop(0)" || site == "match[0][0] paragraph"
       || site == "htmlSafeModeFilter(match[1])" || site == "entity match[1]"
-  | .valueError _ => true
   | .assertion site => site == "m is not None"
   | .noneType site => site == "htmlSafeModeFilter(match[1])" || site == "entity match[1]"
   | _ => false
@@ -205,6 +205,21 @@ theorem macro_params_nonempty {mt : Match} (hm : mt.Of Gen.P.macros_render_0) {g
   obtain ⟨h1, h2⟩ := hsat a b hab
   exact slice_length_pos h1 h2
 
+/-- the text of a group all of whose bodies consume one or more digit code points is accepted by `int()` -/
+theorem group_digits {m : Match} {p : Pat} (hm : m.Of p) {i : Nat} (hi : i ≠ 0)
+    (hr : groupAll (fun b => onlyChars digitCode b && nonEmptyBody b) i p.re = true) {g : Str}
+    (hg : m.res.group m.inp i = some g) : (pyInt g).isSome = true := by
+  obtain ⟨_, hM, hst⟩ := hm
+  have hsat := hM.capSat (P := fun a b => a < b ∧ b ≤ m.inp.size ∧ OkRange digitCode m.inp a b)
+    (chk := fun b => onlyChars digitCode b && nonEmptyBody b) (i := i)
+    (fun body pos caps p c hc hp hmm => by
+      simp only [Bool.and_eq_true] at hc
+      exact ⟨nonEmptyBody_sound body pos caps p c hc.2 hmm, (hmm.bounds hp).2, hmm.allOk hc.1⟩)
+    hst hr (capSat_init _ _ _)
+  obtain ⟨a, b, hab, rfl⟩ := group_span hi hg
+  obtain ⟨h1, h2, h3⟩ := hsat a b hab
+  exact pyInt_of_digits _ (slice_length_pos h1 h2) h3.slice
+
 section
 variable (rec : Rec) (env : Env) (hs : ∀ x, Ok (rec.spans x))
 include hs
@@ -217,6 +232,10 @@ theorem paramRepl_ok (pl : List Str) (mr : Match) (hm : mr.Of Gen.P.macros_rende
   intro s hI
   unfold paramRepl
   hoare
+  -- `int(mr[2])`: the parameter number is a string of digits
+  exfalso
+  have := group_digits hm (i := 2) (by decide) (by decide +kernel) (by assumption)
+  simp_all
 
 theorem macroRepl_ok (text : Str) (silent simple : Bool) (mt : Match)
     (hm : mt.Of (if simple then Gen.P.macros_render_1 else Gen.P.macros_render_0)) :
@@ -268,6 +287,10 @@ theorem replaceMatchGroup_ok (mt : Match) (e : Expand) (m : Match) (hm : m.Of Ge
   intro s hI
   unfold replaceMatchGroup
   hoare
+  -- `int(m[2])`: the group number is a digit
+  exfalso
+  have := group_digits hm (i := 2) (by decide) (by decide +kernel) (by assumption)
+  simp_all
 
 theorem replaceMatch_ok (mt : Match) (r : Str) (e : Expand) : Ok (replaceMatch rec env mt r e) := by
   unfold replaceMatch
